@@ -273,7 +273,8 @@ def run(prop, tier, seed, update_lock=False, verbose=False):
             result["errors"].append(
                 f"{c.name}: cover point(s) not reachable {missing} "
                 f"(vacuous contract or unsound model)")
-        if rep.paths and not rep.exits["return"] and not rep.exits["raise"]:
+        if rep.paths and not rep.exits["return"] and \
+                not rep.exits["raise"] and not rep.unsupported:
             result["errors"].append(f"{c.name}: no path reaches an exit "
                                     f"(contradictory precondition?)")
         stats["solver_s"] += out["solver_s"]
